@@ -6,23 +6,24 @@ SPEC = {
     'theorems': [
         'C03_complete', 'C03_complete_present', 'C03_absent_no_proof',
         'C03_sound_partial', 'C03_sound_struct_partial', 'C03_sound_injective_partial',
-        'C03_sound_refuted', 'C03_leaf_inner_confusion',
+        'C03_sound_refuted', 'C03_leaf_inner_confusion', 'C03_repaired_sound', 'C03_repaired_complete',
         'C03_sound_value_partial', 'C03_proof_binds', 'C03_root_unique',
-        'C03_verify_total', 'C03_verify_struct_total', 'C03_root_of_symbolic', 'C03_ideal_hash',
+        'C03_verify_total', 'C03_verify_struct_total', 'C03_root_of_symbolic', 'C03_state_proofs', 'C03_ideal_hash',
     ],
     'allowed_axioms': [],
-    'shard': 40,
+    'shard': 25,
     'check_preamble': 'Open Scope N_scope.\n',
     'rule': 'one case = one committed tree + its probes. The tree is built by the real SetKVPair over 1-10 block heights '
             '(EnableMavlPrefix on for every second case, EnableMavlPrune (PruneHeight 0) for half, LevelDB instead of memdb for 1/7; '
             'keys from a 6-byte alphabet behind shared prefixes incl. the empty key and keys longer than 32 bytes, ~20 % overwrites, '
-            'hash-sized values under long keys) and read back by the harness from the raw node database (own StoreNode walker). '
+            'hash-sized values under long keys; block heights grow monotonically over the run) and read back by the harness from the raw node database (own StoreNode walker). '
             'Streams: tiny (empty tree, 1-6 leaves: every key proved, full mutation set at EVERY proof node for one key), '
             'small (2-4 batches x 2-6 writes: every key proved, every mutation kind at one random node), medium (3-8 x 4-12, '
             'every key proved, light mutations on 2 keys), large (5-10 x 20-40, 12 keys proved), malformed (14 byte-level '
             'probes per case), confuse (known finding 1, both variants, tree sizes 1-15) and nearmiss (the same forgeries on '
             'trees satisfying the guard). Prove probes: GetKVPairProof + VerifyKVPairProof of the returned bytes, '
-            'Tree.ConstructProof + Proof.Verify (value, LeafHash incl. prefix, RootHash), absent neighbour keys. '
+            'Tree.ConstructProof + Proof.Verify (value, LeafHash incl. prefix, RootHash) on the loaded tree and, in every third case '
+            '(kind *-mem), on the UNSAVED tree after the last batch went through Tree.Set (mixed persisted / new nodes); absent neighbour keys. '
             'Mutations: value (bit flip, +00, truncated, empty, other value), key (bit flip, +00, other key, swapped with value), '
             'root (bit flip, empty, truncated, prefixed, older root of the same store, proof from an older root), per node '
             'height+-1, size+-1, sides swapped, digest bit flip, sibling emptied / truncated / prefixed with garbage / prefix removed, '
